@@ -12,6 +12,7 @@ EXPLANATION = (
     '(R2 also: a spanned module is registered as a node before its gates are walked, and bidirectional construction adds both directions for every edge.) '
     '(R4) the global edge iterator steps its source index exactly when it moves on by one edge bundle. '
     '(R1 also: a node is recorded as visited only under the test that it is not recorded yet; R2 also: the chain walk loop ends on exhaustion only.) '
+    "(R5) every query extracts the topology from the live module tree on that very call - no stored topology is answered from. "
     "Decides these necessary conditions only; not graph-query correctness in general.")
 ASSUMPTIONS = ["a gate chain starting at an endpoint gate is a finite path (C08.R4: at most two peers per gate)"]
 
